@@ -145,4 +145,15 @@ fn main() {
     }
     Ok(())
   });
+  w("im_accepted_integrity_metadata_has_total_accessors", || {
+    use identity_credential::sd_jwt_vc::metadata::IntegrityMetadata;
+    // every accepted value must answer alg / digest / digest_bytes / options without panicking (C05)
+    for text in ["sha256-47DEQpj8HBSa+/TImW+5JCeuQeRkm5NMpJWZG3hSuFU=", "sha256-47DEQpj8HBSa+/TImW+5JCeuQeRkm5NMpJWZG3hSuFU", "sha384-dOTZf16X8p34q2/kYyEFm0jh89uTjikhnzjeLeF0FHsEaYKb1A1cv+Lyv4Hk8vHd",
+                 "sha512-z4PhNX7vuL3xVChQ1m2AB9Yg5AULVxXcg/SpIdNs6c5H0NE8XYXysP+DGNKHfuwvY7kxvUdBeoGlODJ6+SfaPg==", "sha256-", "sha256", "-", "--", "sha256-AAAA-opt-more", "sha256-A", "sha256-A=", "sha256-====", "a-b-c-d", ""] {
+      match std::panic::catch_unwind(|| {
+        if let Ok(m) = IntegrityMetadata::parse(text) { let _ = (m.alg().len(), m.digest().len(), m.digest_bytes().len(), m.options().map(|o| o.len()), m.to_string()); }
+      }) { Ok(()) => {}, Err(_) => return Err(format!("IntegrityMetadata::parse({text:?}) is accepted but an accessor panics")) }
+    }
+    Ok(())
+  });
 }
